@@ -42,7 +42,7 @@ from vtlengine.duckdb_transpiler.Transpiler.structure_visitor import (
     StructureVisitor,
     _try_normalize_time_period,
 )
-from vtlengine.duckdb_transpiler.io._validation import TIME_PERIOD_PATTERN
+from vtlengine.duckdb_transpiler.io._validation import TIME_PERIOD_PATTERN, VALID_DATE_REGEX
 from vtlengine.Exceptions import RunTimeError, SemanticError
 from vtlengine.Model import Component, Dataset, ExternalRoutine, Role, Scalar, ValueDomain
 from vtlengine.Operators.Join import merged_viral_attribute_names
@@ -1674,6 +1674,16 @@ FROM (
                 return f"vtl_period_to_date({expr})"
             if source_lower in ("time", "timeinterval"):
                 return f"vtl_interval_to_date({expr})"
+            if source_lower == "string" and not mask:
+                # Only the date formats of the data loader: DuckDB alone would also read
+                # 'inf', 'infinity' or 'epoch' as timestamps.
+                text = f"CAST({expr} AS VARCHAR)"
+                return (
+                    f"CASE WHEN {text} IS NULL THEN NULL "
+                    f"WHEN regexp_matches(TRIM({text}), '{VALID_DATE_REGEX}') "
+                    f"THEN CAST({text} AS {duckdb_type}) "
+                    f"ELSE error('Cannot cast String to Date: ' || {text}) END"
+                )
 
         return f"CAST({expr} AS {duckdb_type})"
 
